@@ -228,6 +228,225 @@ example : tetVol6 (0 : Rat) unitTetPt [0, 2, 1, 3] = -1 ∧
   · have : tetVol6 (0 : Rat) unitTetPt [0, 2, 1, 3] < 0 := by norm_num [tetVol6, unitTetPt, tet6, V3.det, V3.sub]
     simp [makePositive, this, pick, tetPermute, Femio.Gen.tetPermute]
 
+/-! ## make_elements_positive after a history of public calls on the same object
+
+    Model: `HOp`, `HState`, `runH` in `Model/Retype.lean` (volume / metric queries answer from and fill the stored
+    `elemental_data` entries exactly as the code does). `Cfg.freshMetric` is the repair e608c63: before it
+    `make_elements_positive()` decided from the stored `metric` entry, which an earlier absolute-value query had filled
+    with `|metric|` or an earlier `make_elements_positive()` had left stale. -/
+
+section Hist
+set_option linter.unusedSectionVars false
+variable {R : Type} [Field R] [LinearOrder R] [IsStrictOrderedRing R]
+
+/-- `C18_positive` for an element with any connectivity list (a list that is not four nodes long has metric 0 in the
+    model and is left alone) -/
+theorem makePositive_spec (pt : Nat → V3 R) (e : Elem) :
+    (makePositive 0 pt e).id = e.id ∧ (makePositive 0 pt e).ty = e.ty ∧ (makePositive 0 pt e).conn.Perm e.conn ∧
+    tetVol6 0 pt (makePositive 0 pt e).conn = |tetVol6 0 pt e.conn| ∧ 0 ≤ tetVol6 0 pt (makePositive 0 pt e).conn := by
+  obtain ⟨id, ty, conn⟩ := e
+  by_cases hneg : tetVol6 0 pt conn < 0
+  · rcases conn with _ | ⟨a, _ | ⟨b, _ | ⟨c, _ | ⟨d, _ | ⟨x, t⟩⟩⟩⟩⟩
+    all_goals try (simp [tetVol6] at hneg)
+    have h := C18_positive pt id ty a b c d
+    exact ⟨h.1, h.2.1, h.2.2.1, h.2.2.2.1, h.2.2.2.2.1⟩
+  · have h0 : 0 ≤ tetVol6 0 pt conn := not_lt.mp hneg
+    have he : makePositive 0 pt ⟨id, ty, conn⟩ = ⟨id, ty, conn⟩ := by simp only [makePositive, if_neg hneg]
+    rw [he]
+    exact ⟨rfl, rfl, List.Perm.refl _, (abs_of_nonneg h0).symm, h0⟩
+
+theorem makePositive_idem (pt : Nat → V3 R) (e : Elem) :
+    makePositive 0 pt (makePositive 0 pt e) = makePositive 0 pt e := by
+  have h : ¬ tetVol6 0 pt (makePositive 0 pt e).conn < 0 := not_lt.mpr (makePositive_spec pt e).2.2.2.2
+  generalize makePositive 0 pt e = q at h
+  simp only [makePositive, if_neg h]
+
+theorem map_makePositive_idem (pt : Nat → V3 R) (es : List Elem) :
+    (es.map (makePositive 0 pt)).map (makePositive 0 pt) = es.map (makePositive 0 pt) := by
+  rw [List.map_map]
+  exact List.map_congr_left fun e _ => makePositive_idem pt e
+
+theorem permuteNeg_signed (pt : Nat → V3 R) (es : List Elem) :
+    permuteNeg 0 (signedVols 0 pt es) es = es.map (makePositive 0 pt) := by
+  induction es with
+  | nil => rfl
+  | cons e t ih =>
+    have ih' : permuteNeg 0 (t.map fun e => tetVol6 0 pt e.conn) t = t.map (makePositive 0 pt) := ih
+    simp only [signedVols, List.map_cons, permuteNeg, ih']
+    rfl
+
+theorem map_makePositive_of_noNeg (pt : Nat → V3 R) (es : List Elem) (h : anyNeg 0 (signedVols 0 pt es) = false) :
+    es.map (makePositive 0 pt) = es := by
+  induction es with
+  | nil => rfl
+  | cons e t ih =>
+    simp only [anyNeg, signedVols, List.map_cons, List.any_cons, Bool.or_eq_false_iff,
+      decide_eq_false_iff_not] at h
+    simp only [List.map_cons, makePositive, if_neg h.1]
+    congr 1
+    exact ih (by simpa [anyNeg, signedVols] using h.2)
+
+theorem validate_signed (r : Bool) (xs v : List R) (h : validate 0 r false xs = some v) : v = xs := by
+  unfold validate at h
+  split at h
+  · cases h
+  · simpa using h.symm
+
+theorem stepPositive_fixed_elems (pt : Nat → V3 R) (s : HState R) :
+    (stepPositive Cfg.fixed 0 pt s).elems = s.elems.map (makePositive 0 pt) := by
+  simp only [stepPositive, Cfg.fixed, if_true]
+  split
+  · exact permuteNeg_signed pt s.elems
+  · rename_i h
+    exact (map_makePositive_of_noNeg pt _ (by simpa using h)).symm
+
+theorem stepMetrics_elems (pt : Nat → V3 R) (r a : Bool) (s : HState R) :
+    (stepMetrics 0 pt r a s).1.elems = s.elems := by
+  unfold stepMetrics
+  split
+  · rfl
+  · split <;> rfl
+
+theorem stepVolumes_elems (pt : Nat → V3 R) (r a : Bool) (s : HState R) :
+    (stepVolumes 0 pt r a s).1.elems = s.elems ∧ (stepVolumes 0 pt r a s).1.metric = s.metric := by
+  unfold stepVolumes
+  split
+  · exact ⟨rfl, rfl⟩
+  · split <;> exact ⟨rfl, rfl⟩
+
+theorem runH_fixed_elems (pt : Nat → V3 R) (h : List HOp) (s : HState R) :
+    (runH Cfg.fixed 0 pt s h).elems = s.elems ∨
+    (runH Cfg.fixed 0 pt s h).elems = s.elems.map (makePositive 0 pt) := by
+  induction h generalizing s with
+  | nil => exact Or.inl rfl
+  | cons op t ih =>
+    have hstep : (stepH Cfg.fixed 0 pt s op).elems = s.elems ∨
+        (stepH Cfg.fixed 0 pt s op).elems = s.elems.map (makePositive 0 pt) := by
+      cases op with
+      | metrics r a => exact Or.inl (stepMetrics_elems pt r a s)
+      | volumes r a => exact Or.inl (stepVolumes_elems pt r a s).1
+      | positive => exact Or.inr (stepPositive_fixed_elems pt s)
+    have hrun : runH Cfg.fixed 0 pt s (op :: t) = runH Cfg.fixed 0 pt (stepH Cfg.fixed 0 pt s op) t := rfl
+    rw [hrun]
+    rcases ih (stepH Cfg.fixed 0 pt s op) with h1 | h1 <;> rcases hstep with h2 | h2
+    · exact Or.inl (h1.trans h2)
+    · exact Or.inr (h1.trans h2)
+    · exact Or.inr (by rw [h1, h2])
+    · exact Or.inr (by rw [h1, h2, map_makePositive_idem])
+
+theorem runH_append (cfg : Cfg) (pt : Nat → V3 R) (s : HState R) (h : List HOp) (op : HOp) :
+    runH cfg 0 pt s (h ++ [op]) = stepH cfg 0 pt (runH cfg 0 pt s h) op := by
+  simp [runH, List.foldl_append]
+
+/-- **C18_positive_any_history.** (repaired configuration) Whatever public volume / metric queries — signed or
+    absolute, raising or not, in any order and number — and whatever earlier `make_elements_positive()` calls were made
+    on the same object, `make_elements_positive()` leaves exactly the connectivity it produces on a freshly built
+    object: every element keeps its id and type, its nodes (a permutation) and its absolute volume, and its freshly
+    evaluated volume is non-negative (`C18_positive` element by element). -/
+theorem C18_positive_any_history (pt : Nat → V3 R) (es : List Elem) (h : List HOp) :
+    (runH Cfg.fixed 0 pt (fresh0 es) (h ++ [HOp.positive])).elems = es.map (makePositive 0 pt) ∧
+    ∀ e ∈ es, (makePositive 0 pt e).id = e.id ∧ (makePositive 0 pt e).ty = e.ty ∧
+      (makePositive 0 pt e).conn.Perm e.conn ∧ tetVol6 0 pt (makePositive 0 pt e).conn = |tetVol6 0 pt e.conn| ∧
+      0 ≤ tetVol6 0 pt (makePositive 0 pt e).conn := by
+  refine ⟨?_, fun e _ => makePositive_spec pt e⟩
+  rw [runH_append]
+  show (stepPositive Cfg.fixed 0 pt _).elems = _
+  rw [stepPositive_fixed_elems]
+  rcases runH_fixed_elems pt h (fresh0 es) with h1 | h1
+  · rw [h1]; rfl
+  · rw [h1]; exact map_makePositive_idem pt es
+
+/-- the histories after which the unrepaired `make_elements_positive()` still sees the signed metric of the current
+    connectivity: no earlier `make_elements_positive()`, no metric query asking for absolute values -/
+def signedQuery : HOp → Bool
+  | .metrics _ a => !a
+  | .volumes _ _ => true
+  | .positive => false
+
+theorem runH_upstream_inv (pt : Nat → V3 R) (es : List Elem) (h : List HOp) (hq : h.all signedQuery = true)
+    (s : HState R) (he : s.elems = es) (hm : s.metric = none ∨ s.metric = some (signedVols 0 pt es)) :
+    (runH Cfg.upstream 0 pt s h).elems = es ∧
+    ((runH Cfg.upstream 0 pt s h).metric = none ∨ (runH Cfg.upstream 0 pt s h).metric = some (signedVols 0 pt es)) := by
+  induction h generalizing s with
+  | nil => exact ⟨he, hm⟩
+  | cons op t ih =>
+    simp only [List.all_cons, Bool.and_eq_true] at hq
+    have hrun : runH Cfg.upstream 0 pt s (op :: t) = runH Cfg.upstream 0 pt (stepH Cfg.upstream 0 pt s op) t := rfl
+    rw [hrun]
+    cases op with
+    | positive => simp [signedQuery] at hq
+    | volumes r a =>
+      have hv := stepVolumes_elems pt r a s
+      exact ih hq.2 _ (hv.1.trans he) (by rw [show (stepH Cfg.upstream 0 pt s (HOp.volumes r a)).metric = s.metric from hv.2]; exact hm)
+    | metrics r a =>
+      have ha : a = false := by simpa [signedQuery] using hq.1
+      subst ha
+      refine ih hq.2 _ ((stepMetrics_elems pt r false s).trans he) ?_
+      show (stepMetrics 0 pt r false s).1.metric = none ∨ (stepMetrics 0 pt r false s).1.metric = some _
+      unfold stepMetrics
+      split
+      · exact hm
+      · split
+        · exact hm
+        · rename_i v hv
+          right
+          have := validate_signed r _ v hv
+          simp [this, he]
+
+/-- **C18_positive_history_partial.** (unrepaired configuration `Cfg.upstream`, pinned for reference) The same
+    conclusion holds only for histories without an earlier `make_elements_positive()` and without a metric query with
+    `return_abs_metric=True`; `C18_stored_metric_counterexample` shows that both restrictions are needed. -/
+theorem C18_positive_history_partial (pt : Nat → V3 R) (es : List Elem) (h : List HOp)
+    (hq : h.all signedQuery = true) :
+    (runH Cfg.upstream 0 pt (fresh0 es) (h ++ [HOp.positive])).elems = es.map (makePositive 0 pt) := by
+  rw [runH_append]
+  obtain ⟨he, hm⟩ := runH_upstream_inv pt es h hq (fresh0 es) rfl (Or.inl rfl)
+  generalize runH Cfg.upstream 0 pt (fresh0 es) h = s at he hm
+  show (stepPositive Cfg.upstream 0 pt s).elems = _
+  have key : ∀ (A B : HState R), A.elems = permuteNeg 0 (signedVols 0 pt es) es → B.elems = es →
+      (if anyNeg 0 (signedVols 0 pt es) = true then A else B).elems = es.map (makePositive 0 pt) := by
+    intro A B hA hB
+    split
+    · rw [hA]; exact permuteNeg_signed pt es
+    · rename_i hn
+      rw [hB]; exact (map_makePositive_of_noNeg pt es (by simpa using hn)).symm
+  simp only [stepPositive, Cfg.upstream, Bool.false_eq_true, if_false]
+  rcases hm with hm | hm
+  · simp only [stepMetrics, hm, validate, Bool.false_and, Bool.false_eq_true, if_false, he]
+    exact key _ _ rfl rfl
+  · simp only [stepMetrics, hm, validate, Bool.false_and, Bool.false_eq_true, if_false]
+    exact key _ _ (by show permuteNeg 0 _ s.elems = _; rw [he]) he
+
+end Hist
+
+/-- integer coordinates of the unit tetrahedron (for `decide`) -/
+def unitTetPtI : Nat → V3 Int
+  | 0 => ⟨0, 0, 0⟩ | 1 => ⟨1, 0, 0⟩ | 2 => ⟨0, 1, 0⟩ | _ => ⟨0, 0, 1⟩
+
+/-- **C18_stored_metric_counterexample.** Two tetrahedra, the first inverted (signed metric −1). Unrepaired
+    configuration: (A) after `calculate_element_metrics(raise_negative_metric=False, return_abs_metric=True)`,
+    `make_elements_positive()` leaves the inverted element as it is; (B) a second `make_elements_positive()` undoes the
+    first. The repaired configuration re-orients the element in both histories. -/
+theorem C18_stored_metric_counterexample :
+    let es : List Elem := [⟨7, 8, [0, 2, 1, 3]⟩, ⟨9, 8, [0, 1, 2, 3]⟩]
+    tetVol6 (0 : Int) unitTetPtI [0, 2, 1, 3] = -1 ∧
+    (runH Cfg.upstream (0 : Int) unitTetPtI (fresh0 es) [.metrics false true, .positive]).elems.map (·.conn)
+      = [[0, 2, 1, 3], [0, 1, 2, 3]] ∧
+    (runH Cfg.upstream (0 : Int) unitTetPtI (fresh0 es) [.positive, .positive]).elems.map (·.conn)
+      = [[0, 2, 1, 3], [0, 1, 2, 3]] ∧
+    (runH Cfg.fixed (0 : Int) unitTetPtI (fresh0 es) [.metrics false true, .positive]).elems.map (·.conn)
+      = [[0, 1, 2, 3], [0, 1, 2, 3]] ∧
+    (runH Cfg.fixed (0 : Int) unitTetPtI (fresh0 es) [.positive, .positive]).elems.map (·.conn)
+      = [[0, 1, 2, 3], [0, 1, 2, 3]] := by decide
+
+/-- non-vacuity of `C18_positive_any_history` / `C18_positive_history_partial`: the seeded-change history "signed
+    metric query, absolute metric query, make positive" on the same two tetrahedra -/
+example : (runH Cfg.fixed (0 : Int) unitTetPtI (fresh0 [⟨7, 8, [0, 2, 1, 3]⟩, ⟨9, 8, [0, 1, 2, 3]⟩])
+      [.metrics false false, .metrics false true, .positive]).elems.map (·.conn) = [[0, 1, 2, 3], [0, 1, 2, 3]] ∧
+    (runH Cfg.upstream (0 : Int) unitTetPtI (fresh0 [⟨7, 8, [0, 2, 1, 3]⟩, ⟨9, 8, [0, 1, 2, 3]⟩])
+      [.metrics false false, .metrics false true, .positive]).elems.map (·.conn) = [[0, 1, 2, 3], [0, 1, 2, 3]] := by
+  decide
+
 /-! ## the unrepaired configuration -/
 
 /-- **C18_pyr_counterexample (F10).** With `argsort` omitted for pyramids (`Cfg.upstream`) and node ids stored in
